@@ -578,7 +578,9 @@ pub fn evaluate(inp: &RefInput) -> Result<RefOut, RefErr> {
     let cgn_in = sum_over(&|_| true, &per_del_cgn_ren);
     let cgn_in_nrb = sum_over(&|c| nearby.contains(&c) || c == "ELECTRICIDAD", &per_del_cgn_ren);
     let exp_a_cgn_nrb = if cgn_in.v > 0.0 { el_exp_a_ren.sub(exp_a_onst).mul(cgn_in_nrb).div(cgn_in) } else { V::ZERO };
-    let num_onst = ren_onst_cr.add(el_del_onst_ren).sub(exp_a_onst.scale(1.0 - k));
+    let cgn_in_onst = sum_over(&|c| onsite.contains(&c), &per_del_cgn_ren);
+    let exp_a_cgn_onst = if cgn_in.v > 0.0 { el_exp_a_ren.sub(exp_a_onst).mul(cgn_in_onst).div(cgn_in) } else { V::ZERO };
+    let num_onst = ren_onst_cr.add(el_del_onst_ren).sub(exp_a_onst.add(exp_a_cgn_onst).scale(1.0 - k));
     let num_nrb = ren_nrb_cr.add(el_del_onst_ren).add(ren_el_cgn).sub(exp_a_onst.add(exp_a_cgn_nrb).scale(1.0 - k));
     let ratio = |num: V| -> V {
         if t.v > 0.0 {
